@@ -316,6 +316,13 @@ def judge(ms, dens, exact, slow_bpm, site, case, ctx):
         return
     ctx.passed("write.raises")
     case = dict(case, written=text[-600:])
+    # writing is an observation: the same object written again gives the same text
+    ctx.transition()
+    try:
+        again = ms.write()
+        ctx.check("write.repeatable", again == text, site=dict(route=site.get("route")), case=case, observed=again[-600:], expected=text[-600:])
+    except Exception as e:
+        ctx.check("write.repeatable", False, site=dict(route=site.get("route"), exc=type(e).__name__), case=case, observed=f"{type(e).__name__}: {e}"[:300], expected="the same text")
     p = rs.parse(text)
     kinds = sorted({problem_class(s) for s in p["syntax"]})
     ctx.check("syntax", not p["syntax"], site=dict(site, problems=kinds[:3]), case=case, observed=p["syntax"][:5], expected="every tag '#NAME:value;', nothing outside tags, rows of <keys> symbols, rows per measure a multiple of 4")
@@ -416,25 +423,33 @@ def check_route(route, ctx):
     site = dict(route=route, devs=[])
     ctx.case()
     ctx.state(("sm-route", route), nontrivial=True)
+    twin = None
     try:
         if route in ("read", "read+rate"):
             ms = SMMapSet.read(starts.SM_TEXT.split("\n"))
             if route == "read+rate":
                 ms = ms.rate(1.5)
         elif route.startswith("write/"):
-            # a stale cache would show here: write once, edit the SAME list objects in place, write again
-            ms = charts.make_mapset("sm", [starts.make("sm", "plain"), starts.make("sm", "empties")], dict(title="t", artist="a", credit="c", offset=0.0, music="m.ogg"))
+            # a stale cache would show here: write once, edit the SAME list objects in place, write again;
+            # the expectation comes from a twin that gets the same edits but was never written before
+            def fresh():
+                return charts.make_mapset("sm", [starts.make("sm", "plain"), starts.make("sm", "empties")], dict(title="t", artist="a", credit="c", offset=0.0, music="m.ogg"))
+
+            def edit(x):
+                if "offsets" in route:
+                    s_ = x.stack()
+                    s_.offset += 250
+                    x.offset = 250.0
+                elif "bpm" in route:
+                    for m_ in x.maps:
+                        m_.bpms.bpm = m_.bpms.bpm * 2
+                else:
+                    x.maps[0].holds.offset += 500
+                    x.maps[0].holds.length = x.maps[0].holds.length * 2
+            ms, twin = fresh(), fresh()
             ms.write()
-            if "offsets" in route:
-                s_ = ms.stack()
-                s_.offset += 250
-                ms.offset = 250.0
-            elif "bpm" in route:
-                for m_ in ms.maps:
-                    m_.bpms.bpm = m_.bpms.bpm * 2
-            else:
-                ms.maps[0].holds.offset += 500
-                ms.maps[0].holds.length = ms.maps[0].holds.length * 2
+            edit(ms)
+            edit(twin)
         elif route == "rate":
             ms = charts.make_mapset("sm", [starts.make("sm", "plain")], dict(title="t", artist="a", credit="c", offset=0.0, music="m.ogg")).rate(1.5)
         elif route == "OsuToSM":
@@ -446,6 +461,7 @@ def check_route(route, ctx):
     except Exception as e:
         ctx.check("setup", False, site=dict(site, exc=type(e).__name__), case=case, observed=f"{type(e).__name__}: {e}"[:300], expected="a mapset")
         return
-    dens = [[(k, c, t, l) for k, c, t, l in lib_objs(m)] for m in ms.maps]
-    slow = min(float(b) for m in ms.maps for b in m.bpms.bpm.tolist())
+    src = twin if twin is not None else ms
+    dens = [[(k, c, t, l) for k, c, t, l in lib_objs(m)] for m in src.maps]
+    slow = min(float(b) for m in src.maps for b in m.bpms.bpm.tolist())
     judge(ms, dens, True, slow, site, case, ctx)
